@@ -53,7 +53,8 @@ func (u *c20Unpub) Put(op *operation.AnchoredOperation) error {
 func (u *c20Unpub) remove(op *operation.AnchoredOperation) {
 	l := u.ops[op.UniqueSuffix]
 	for i, x := range l {
-		if x.Type == op.Type {
+		// the anchored copy is re-canonicalized by the provider: compare the request as a JSON value
+		if x.Type == op.Type && jsonValueEqual(x.OperationRequest, op.OperationRequest) {
 			u.ops[op.UniqueSuffix] = append(append([]*operation.AnchoredOperation{}, l[:i]...), l[i+1:]...)
 			return
 		}
@@ -615,6 +616,31 @@ func c20(r *hx.Run) {
 		pools := []*fx.Pool{c20Pool(0, fx.Ed25519), c20Pool(1, fx.Ed25519)}
 		if strings.HasPrefix(cfg.Name, "CD") {
 			pools[1] = c20Pool(1, fx.P256)
+		}
+		if r.Only != "" {
+			// replay of one recorded event sequence: execute it directly (the search would not reach it under a filter)
+			if !strings.HasPrefix(r.Only, cfg.Name+"|") {
+				continue
+			}
+			var h []c20Event
+			for _, tok := range strings.Split(strings.TrimPrefix(r.Only, cfg.Name+"|"), ";") {
+				switch {
+				case strings.HasPrefix(tok, "submit(d"):
+					var d int
+					fmt.Sscanf(tok, "submit(d%d)", &d)
+					h = append(h, c20Event{Kind: "submit", D: d})
+				case tok != "":
+					h = append(h, c20Event{Kind: tok})
+				}
+			}
+			for i := 0; i < 2; i++ { // twice: identical verdicts required
+				_, class, detail := c20Replay(cfg, pools, h)
+				r.Eval()
+				if class != "" {
+					r.Violation("e2e:"+class, r.Only, fmt.Sprintf("configuration %s, events %v\n  %s", cfg.Name, h, detail), nil)
+				}
+			}
+			continue
 		}
 		evs := []c20Event{{Kind: "submit", D: 0}, {Kind: "submit", D: 1}, {Kind: "tickM"}, {Kind: "tickT"}, {Kind: "observe"}}
 		if cfg.TwoVer {
